@@ -2,7 +2,7 @@
 """Demonstration: single-token mutations of the Rust source flip exactly the mutated function to
 `differs`; harmless refactors keep `equal`.  Works in a scratch worktree (/tmp/wt-tr), never in /repo.
 
-usage: python3 tools/kurbo2coq/demo_mutations.py
+usage: python3 tools/kurbo2coq/demo_mutations.py [substring of a mutation name or file ...]
 """
 import json, os, subprocess, sys, time
 
@@ -94,6 +94,51 @@ MUTS = [
     let rel = (raw - a) / a;
     rel.abs()''',
      set()),
+    ('REFACTOR extrema_ranges pushes via a temporary', 'kurbo/src/param_curve.rs',
+     '            result.push(t0..t);\n            t0 = t;\n', '            let piece = t0..t;\n            result.push(piece);\n            t0 = t;\n',
+     set()),
+    # ---- phase 2 families: &mut self state transformers, loops, bridges
+    ('state field not updated in DashIterator::step', 'kurbo/src/stroke.rs',
+     '            self.seg_remaining -= self.dash_remaining;\n', '',
+     {"stroke.rs::DashIterator<'a,T>::step"}),
+    ('wrong state in DashIterator::handle_closepath', 'kurbo/src/stroke.rs',
+     '        self.state = DashState::FromStash;\n        self.reset_phase();', '        self.state = DashState::ToStash;\n        self.reset_phase();',
+     {"stroke.rs::DashIterator<'a,T>::handle_closepath"}),
+    ('comparison flipped in PathSeg::winding_inner (line branch)', 'kurbo/src/bezpath.rs',
+     'if p.x < start.x.min(end.x) {', 'if p.x <= start.x.min(end.x) {',
+     {'bezpath.rs::PathSeg::winding_inner'}),
+    ('root test 0..=1 -> 0..1 in winding_inner (cubic loop)', 'kurbo/src/bezpath.rs',
+     'for t in solve_cubic(d, c, b, a) {\n                    if (0.0..=1.0).contains(&t) {',
+     'for t in solve_cubic(d, c, b, a) {\n                    if (0.0..1.0).contains(&t) {',
+     {'bezpath.rs::PathSeg::winding_inner'}),
+    ('PathSeg::winding: wrong test for a monotone segment', 'kurbo/src/bezpath.rs',
+     'if ranges.len() == 1 {', 'if ranges.len() == 0 {',
+     {'bezpath.rs::PathSeg::winding'}),
+    ('dropped one_coord call (the y roots) in CubicBez::extrema', 'kurbo/src/cubicbez.rs',
+     '        one_coord(&mut result, d0.y, d1.y, d2.y);\n', '',
+     {'cubicbez.rs::<CubicBez as ParamCurveExtrema>::extrema'}),
+    ('dropped push in one_coord', 'kurbo/src/cubicbez.rs',
+     'if t > 0.0 && t < 1.0 {\n                    result.push(t);', 'if t > 0.0 && t < 1.0 {\n                    let _ = t;',
+     'ANYSTATUS:cubicbez.rs::extrema::one_coord'),
+    ('swap dropped in QuadBez::extrema', 'kurbo/src/quadbez.rs',
+     'if result.len() == 2 && result[0] > t {', 'if result.len() == 3 && result[0] > t {',
+     {'quadbez.rs::<QuadBez as ParamCurveExtrema>::extrema'}),
+    ('t0 not advanced in extrema_ranges', 'kurbo/src/param_curve.rs',
+     '            result.push(t0..t);\n            t0 = t;\n', '            result.push(t0..t);\n',
+     {'param_curve.rs::<PathSeg as ParamCurveExtrema (default)>::extrema_ranges'}),
+    ('bounding_box starts from swapped end points', 'kurbo/src/param_curve.rs',
+     'Rect::from_points(self.start(), self.end())', 'Rect::from_points(self.end(), self.start())',
+     {'param_curve.rs::<QuadBez as ParamCurveExtrema (default)>::bounding_box', 'param_curve.rs::<CubicBez as ParamCurveExtrema (default)>::bounding_box',
+      'param_curve.rs::<PathSeg as ParamCurveExtrema (default)>::bounding_box'}),
+    ('inner pivot on the wrong side in StrokeCtx::do_join', 'kurbo/src/stroke.rs',
+     'if cross > 0.0 {\n                    self.backward_path.line_to(p0);', 'if cross > 0.0 {\n                    self.forward_path.line_to(p0);',
+     {'stroke.rs::StrokeCtx::do_join'}),
+    ('last_pt not updated in StrokeCtx::do_line', 'kurbo/src/stroke.rs',
+     '        self.backward_path.line_to(p1 + norm);\n        self.last_pt = p1;', '        self.backward_path.line_to(p1 + norm);',
+     {'stroke.rs::StrokeCtx::do_line'}),
+    ('forward path not cleared in StrokeCtx::finish', 'kurbo/src/stroke.rs',
+     'true, self.start_pt, self.start_norm),\n        }\n\n        self.forward_path.truncate(0);', 'true, self.start_pt, self.start_norm),\n        }\n',
+     {'stroke.rs::StrokeCtx::finish'}),
     # a helper without a model counterpart: every user follows
     ('helper Rect::new swaps y0/y1 (all users of the helper follow)', 'kurbo/src/rect.rs',
      'Rect { x0, y0, x1, y1 }\n    }', 'Rect { x0, y0: y1, x1, y1: y0 }\n    }',
@@ -130,7 +175,10 @@ def main():
         bad = [f['rust'] for f in base['functions'] if f['status'] != 'equal']
         print('baseline: %d equal, not equal: %s' % (base['summary']['equal'], bad))
         ok &= not bad
+        only = [a for a in sys.argv[1:] if not a.startswith('-')]
         for name, file, old, new, expect in MUTS:
+            if only and not any(o.lower() in name.lower() or o in file for o in only):
+                continue
             path = os.path.join(WT, file)
             src = open(path).read()
             if src.count(old) != 1:
@@ -144,7 +192,10 @@ def main():
             finally:
                 open(path, 'w').write(src)
             got = {f['rust']: f['status'] for f in res['functions'] if f['status'] != 'equal'}
-            if expect == 'MANY':
+            if isinstance(expect, str) and expect.startswith('ANYSTATUS:'):
+                good = set(got) == {expect[len('ANYSTATUS:'):]}
+                shown = str(got)
+            elif expect == 'MANY':
                 good = len(got) > 5
                 shown = '%d functions' % len(got)
             elif expect is None:
